@@ -1059,14 +1059,16 @@ def r_cycle_trigger(prog, rep):
     callers = [g for g in engine_functions(prog) for c in g.calls(ENGINE + "::resolveCycle")]
     r.check(len(callers) == 1, "resolveCycle|single-caller", "", "resolveCycle has %d callers" % len(callers))
     # unresolved -> cancel + return false
-    blocks = [b for b in f.blocks.values() if b.cond() is not None and "resolveCycle" in expr_str(b.cond())]
-    ok = len(blocks) == 1
-    if ok:
-        s = blocks[0].succs[1]
-        w = cfg.path_exists(f, (s, -1), lambda p, e: e == "EXIT" or (isinstance(e, int) and False), avoid=call_pred(f, ENGINE + "::cancelRemainingTasks"))
-        ok = w is None
-        # and that arm returns false
-        s_true = blocks[0].succs[0]
+    # every return reached knowing that resolveCycle() said "not resolved" returns false and is preceded by the cancellation
+    rcp = cfg.pos_of(f, rc[0])
+    fail_rets = [n for n in f.nodes if n.get("k") == "return" and has(facts_at(bf, n), "resolveCycle(", False)]
+    ok = len(fail_rets) >= 1
+    for n in fail_rets:
+        ok = ok and core(n.child("e")).get("v") is False and \
+            cfg.path_exists(f, rcp, lambda p, e, t=cfg.pos_of(f, n): p == t, avoid=call_pred(f, ENGINE + "::cancelRemainingTasks")) is None
+    # and the "resolved" outcome goes round the loop again instead of leaving
+    cont = [n for n in f.nodes if n.get("k") in ("continue",) and has(facts_at(bf, n), "resolveCycle(", True)]
+    ok = ok and len(cont) >= 1
     r.check(ok, "executeTasks|unresolved-cycle-cancels", "", "an unresolved cycle does not cancel the remaining tasks", f)
     g = efn(prog, "resolveCycle")
     bg = BranchFacts(g, kill="assign")
